@@ -69,6 +69,20 @@ func (s *samp) String() string {
 	return s.Kind
 }
 
+// leafAt follows the ParentBased delegates that were asked.
+func (s *samp) leafAt(path []uint64) *samp {
+	for _, k := range path {
+		if s.Kind != "parent" || int(k) >= len(s.Sub) {
+			return nil
+		}
+		s = s.Sub[k]
+	}
+	if s.Kind == "parent" {
+		return nil
+	}
+	return s
+}
+
 type recorder struct {
 	path    []uint64
 	answers []answer
@@ -196,6 +210,8 @@ type spanObs struct {
 	Dec       int
 	AnsTS     string
 	Path      []uint64
+	HasRef    bool // a TraceIDRatioBased delegate answered: Ref is its answer for the same trace id without a parent
+	Ref       bool
 }
 type callObs struct {
 	IDs bool
@@ -324,6 +340,11 @@ func runProgram(s *samp, p plan) progObs {
 		if s != nil && i < len(rec.answers) {
 			a := rec.answers[i]
 			so.HasAns, so.Dec, so.AnsTS, so.Path = true, int(a.d), a.ts, a.path
+			if leaf := s.leafAt(a.path); leaf != nil && leaf.Kind == "ratio" {
+				rd := sdktrace.TraceIDRatioBased(math.Float64frombits(leaf.Bits)).ShouldSample(
+					sdktrace.SamplingParameters{ParentContext: context.Background(), TraceID: tid})
+				so.HasRef, so.Ref = true, rd.Decision == sdktrace.RecordAndSample
+			}
 			if a.tid != tid {
 				o.Problems = append(o.Problems, fmt.Sprintf("span %d: the sampler was asked about trace id %s but the span carries %s", i, a.tid, tid))
 			}
@@ -392,6 +413,10 @@ func hexList(l []string) string {
 func (o progObs) coqTail() []string {
 	var sp, calls []string
 	for _, s := range o.Spans {
+		ref := vgen.None
+		if s.HasRef {
+			ref = vgen.Some(vgen.Bool(s.Ref))
+		}
 		ans := vgen.None
 		if s.HasAns {
 			var path []string
@@ -402,7 +427,7 @@ func (o progObs) coqTail() []string {
 		}
 		sp = append(sp, vgen.App("Build_span_obs",
 			vgen.App("Build_octx", hx(s.TID), hx(s.SID), vgen.N(uint64(s.Flags)), vgen.HxS(s.TS), vgen.Bool(s.Remote)),
-			vgen.Bool(s.Recording), ans))
+			vgen.Bool(s.Recording), ans, ref))
 	}
 	for _, c := range o.Calls {
 		calls = append(calls, vgen.Pair(vgen.Bool(c.IDs), hx(c.Arg)))
@@ -853,7 +878,7 @@ func main() {
 	for i := 0; i < nTS; i++ {
 		bits := genRatio(r)
 		if r.Chance(1, 2) {
-			bits = vgen.Pick(r, []uint64{bitsOf(0.5), bitsOf(0.25), bitsOf(0.001), bitsOf(0.999), bitsOf(p63 * 3)})
+			bits = vgen.Pick(r, []uint64{0, bitsOf(p63 * 3), bitsOf(0.5), bitsOf(1), bitsOf(0.5), bitsOf(0.25), bitsOf(0.001), bitsOf(0.999)})
 		}
 		var s *samp
 		switch r.Intn(6) {
@@ -869,12 +894,12 @@ func main() {
 		_, bd := boundOf(bits)
 		var p plan
 		p.Blocking = r.Bool()
-		n := r.Intn(3) + 1
+		n := r.Intn(3) + 2 // remote and local hand-made parents, sampled and not
 		for j := 0; j < n; j++ {
 			x := (bd + uint64(r.Intn(4)) - 2) & (1<<63 - 1) // bd-2 .. bd+1
 			t := tidWith(r, x, r.U64())
-			c := ctxPlan{TID: hex.EncodeToString(t[:]), SID: fmt.Sprintf("%016x", r.U64()|1), Flags: vgen.Pick(r, []byte{0, 1, 0, 1, 0xfe, 0xff}),
-				TS: vgen.Pick(r, []string{"a=1", "k=v,x=y", "rojo=00f067aa0ba902b7,congo=t61rcWkgMzE"}), Remote: r.Bool()}
+			c := ctxPlan{TID: hex.EncodeToString(t[:]), SID: fmt.Sprintf("%016x", r.U64()|1), Flags: vgen.Pick(r, []byte{0, 1, 0, 1, 0, 1, 0xfe, 0xff}),
+				TS: vgen.Pick(r, []string{"a=1", "k=v,x=y", "rojo=00f067aa0ba902b7,congo=t61rcWkgMzE"}), Remote: j%2 == 0}
 			p.Ops = append(p.Ops, opPlan{Kind: 2, Ctx: c})
 			p.Ops = append(p.Ops, opPlan{Kind: 1, Idx: len(p.Ops) - 1})
 			if r.Chance(1, 3) {
@@ -1043,40 +1068,84 @@ func main() {
 		}
 	}
 
-	// the stock generator: valid and (probabilistically) distinct ids - tested only
-	{
-		desc := map[string]any{"op": "stock-generator"}
-		guard(desc, func() {
-			tp := sdktrace.NewTracerProvider(sdktrace.WithSampler(sdktrace.NeverSample()))
-			tr := tp.Tracer("c09")
-			seenS := map[trace.SpanID]bool{}
-			seenT := map[trace.TraceID]bool{}
-			n := o.Count(20000, 400000)
-			ctx := context.Background()
-			for i := 0; i < n; i++ {
-				c, sp := tr.Start(ctx, "s")
-				sc := sp.SpanContext()
-				if !sc.IsValid() {
-					w.Violation("stock generator: invalid span context", desc)
-					break
-				}
-				if seenS[sc.SpanID()] {
-					w.Violation("stock generator: duplicate span id", desc)
-					break
-				}
-				seenS[sc.SpanID()] = true
-				if i%3 == 0 {
-					if seenT[sc.TraceID()] {
-						w.Violation("stock generator: duplicate trace id for a root", desc)
-						break
-					}
-					seenT[sc.TraceID()] = true
-					ctx = context.Background()
-				} else {
-					ctx = c
-				}
+	// the DEFAULT generator on several providers in this process: valid and (probabilistically)
+	// pairwise distinct span ids and root trace ids across all of them - tested only
+	multi := func(nProv, nSpans int) (sids []trace.SpanID, tids []trace.TraceID, bad string) {
+		var tracers []trace.Tracer
+		ctxs := make([]context.Context, nProv)
+		for i := 0; i < nProv; i++ {
+			tp := sdktrace.NewTracerProvider(sdktrace.WithSampler(vgen.Pick(r, []sdktrace.Sampler{sdktrace.NeverSample(), sdktrace.AlwaysSample()})))
+			tracers = append(tracers, tp.Tracer("c09"))
+			ctxs[i] = context.Background()
+		}
+		for i := 0; i < nSpans; i++ {
+			p := i % nProv
+			if r.Chance(1, 3) {
+				p = r.Intn(nProv)
 			}
-			w.Extra["stock_generator_spans"] = n
+			root := r.Chance(1, 3)
+			if root {
+				ctxs[p] = context.Background()
+			}
+			isRoot := !trace.SpanContextFromContext(ctxs[p]).IsValid()
+			c, sp := tracers[p].Start(ctxs[p], "s")
+			sc := sp.SpanContext()
+			if !sc.IsValid() {
+				bad = "default generator: invalid span context"
+			}
+			sids = append(sids, sc.SpanID())
+			if isRoot {
+				tids = append(tids, sc.TraceID())
+			}
+			ctxs[p] = c
+		}
+		return
+	}
+	nUniq := o.Count(3, 20)
+	for i := 0; i < nUniq; i++ {
+		nProv := 2 + i%3
+		desc := map[string]any{"op": "default-generator", "providers": nProv}
+		guard(desc, func() {
+			sids, tids, bad := multi(nProv, 1200)
+			if bad != "" {
+				w.Violation(bad, desc)
+			}
+			var a, b []string
+			for _, s := range sids {
+				a = append(a, vgen.Hx(s[:]))
+			}
+			for _, t := range tids {
+				b = append(b, vgen.Hx(t[:]))
+			}
+			w.Tally("default-generator")
+			w.Add(vgen.App("CUnique", vgen.List(a), vgen.List(b)), desc, "default-generator", true)
+		})
+	}
+	{ // larger volume, judged here
+		desc := map[string]any{"op": "default-generator-volume", "providers": 4}
+		guard(desc, func() {
+			n := o.Count(20000, 400000)
+			sids, tids, bad := multi(4, n)
+			if bad != "" {
+				w.Violation(bad, desc)
+			}
+			seenS := map[trace.SpanID]bool{}
+			for _, s := range sids {
+				if seenS[s] {
+					w.Violation("default generator: the same span id twice in one process (several providers)", desc)
+					break
+				}
+				seenS[s] = true
+			}
+			seenT := map[trace.TraceID]bool{}
+			for _, t := range tids {
+				if seenT[t] {
+					w.Violation("default generator: the same trace id for two roots in one process (several providers)", desc)
+					break
+				}
+				seenT[t] = true
+			}
+			w.Extra["default_generator_spans"] = n
 		})
 	}
 
